@@ -1,7 +1,9 @@
-(* C11 -- concrete maps: non-vacuity instances of the hypotheses and the
-   witnesses of the clauses that the FAITHFUL model refutes (each is replayed
-   on the implementation by tools/impl/c11.py and listed in
-   known_findings.d/C11.json). *)
+(* C11 -- concrete maps: non-vacuity instances of the hypotheses, and the
+   former witnesses of the clauses that the model of the UNREPAIRED code
+   refuted (mask-then-slice, non-zero / half-step grid origin, 3-value array
+   item, single-point map).  On the repaired code each of them now behaves as
+   the reference demands; they are kept as regression instances (vm_compute)
+   and are replayed on the implementation by tools/impl/c11.py on every run. *)
 From Coq Require Import String Ascii ZArith QArith Qround List Bool Lia Arith.
 From Verif Require Import NdIndex C11CMap C11Nd C11Sel.
 Import ListNotations.
@@ -61,6 +63,13 @@ Proof. vm_compute. repeat split. Qed.
 Lemma m10_wf : wfb m10 = true /\ oshape m10 = [10].
 Proof. vm_compute. repeat split. Qed.
 
+(* maps whose grid origin is 2 / 3 / half a step away from zero are well-formed *)
+Lemma off_wf :
+  (wfb m34_off = true /\ oshape m34_off = [3; 4]) /\
+  (wfb m10_off = true /\ oshape m10_off = [10]) /\
+  (wfb m10_half = true /\ oshape m10_half = [10]).
+Proof. vm_compute. repeat split. Qed.
+
 Definition hist_ok : list key :=
   [KSel [sl 1 3; sl 0 3]; KPhase ["Indexed"%string; "alpha"%string]; KMask [true; false; true; true]].
 
@@ -70,85 +79,87 @@ Lemma hist_ok_guard :
   ids_res (run m34 hist_ok) = Ok [4; 8; 10].
 Proof. vm_compute. repeat split. Qed.
 
-(* ----------------------------------------------------------- refuted *)
-(* boolean mask, then a slice: point 5 was masked out and comes back *)
+(* a history whose slice keys meet NON-rectangular selections, on a map with a
+   non-zero origin *)
+Definition hist_nonrect : list key :=
+  [KMask mask_not5; KSel [kfull; kfull]; KSel [KSlice None None (Some 2%Z)]; KSel [kfull; sl 1 4];
+   KPhase ["indexed"%string]].
+
+Lemma hist_nonrect_guard :
+  hist_guardb (static m34_off) (acc_id m34_off) hist_nonrect = true /\
+  ref_run (static m34_off) (acc_id m34_off) hist_nonrect = Ok [1; 2; 10; 11] /\
+  ids_res (run m34_off hist_nonrect) = Ok [1; 2; 10; 11].
+Proof. vm_compute. repeat split. Qed.
+
+(* ------------------------------------------- former refutation witnesses *)
+(* boolean mask, then a slice: point 5 was masked out and stays out *)
 Lemma wit_mask_then_slice :
-  wfb m34 = true /\
   ids_res (run m34 [KMask mask_not5]) = Ok [0; 1; 2; 3; 4; 6; 7; 8; 9; 10; 11] /\
-  ids_res (run m34 [KMask mask_not5; KSel [kfull; kfull]]) = Ok (seq 0 12) /\
+  ids_res (run m34 [KMask mask_not5; KSel [kfull; kfull]]) = Ok [0; 1; 2; 3; 4; 6; 7; 8; 9; 10; 11] /\
   ref_run (static m34) (acc_id m34) [KMask mask_not5; KSel [kfull; kfull]]
     = Ok [0; 1; 2; 3; 4; 6; 7; 8; 9; 10; 11].
 Proof. vm_compute. repeat split. Qed.
 
-Lemma wit_mask_then_slice_ex :
-  exists (m m1 m2 : cmap Z Z) (b : list bool) (k : key) (p : nat),
-    wfb m = true /\ getitem m (KMask b) = Ok m1 /\ getitem m1 k = Ok m2 /\
-    In p (acc_id m2) /\ ~ In p (acc_id m1) /\
-    ref_run (static m) (acc_id m) [KMask b; k] = Ok (acc_id m1).
-Proof.
-  exists m34, (getm (getitem m34 (KMask mask_not5))),
-         (getm (run m34 [KMask mask_not5; KSel [kfull; kfull]])), mask_not5, (KSel [kfull; kfull]), 5.
-  split; [vm_compute; reflexivity|]. split; [vm_compute; reflexivity|].
-  split; [vm_compute; reflexivity|].
-  split; [vm_compute; do 5 right; left; reflexivity|].
-  split; [|vm_compute; reflexivity].
-  vm_compute. intros H. repeat (destruct H as [H|H]; [discriminate|]). exact H.
-Qed.
-
-(* a strided slice leaves a non-rectangular selection; the next slice re-includes rows *)
+(* a strided slice leaves a non-rectangular selection; the next slice keeps it *)
 Lemma wit_stride_then_slice :
   ids_res (run m34 [KSel [KSlice None None (Some 2%Z)]]) = Ok [0; 1; 2; 3; 8; 9; 10; 11] /\
-  ids_res (run m34 [KSel [KSlice None None (Some 2%Z)]; KSel [kfull]]) = Ok (seq 0 12) /\
+  ids_res (run m34 [KSel [KSlice None None (Some 2%Z)]; KSel [kfull]]) = Ok [0; 1; 2; 3; 8; 9; 10; 11] /\
   ref_run (static m34) (acc_id m34) [KSel [KSlice None None (Some 2%Z)]; KSel [kfull]]
     = Ok [0; 1; 2; 3; 8; 9; 10; 11].
 Proof. vm_compute. repeat split. Qed.
 
-(* grid origin two steps from zero: slicing raises although the reference selects 4 points *)
-Lemma wit_origin_raises :
+(* grid origin two steps from zero: slicing selects what the reference selects *)
+Lemma wit_origin_slice :
   oshape m34_off = [3; 4] /\ length (ind m34_off) = 12 /\
-  ids_res (getitem m34_off (KSel [sl 0 2; sl 0 2])) = Err ValueError /\
+  ids_res (getitem m34_off (KSel [sl 0 2; sl 0 2])) = Ok [0; 1; 4; 5] /\
   ref_getitem (static m34_off) (acc_id m34_off) (KSel [sl 0 2; sl 0 2]) = Ok [0; 1; 4; 5].
 Proof. vm_compute. repeat split. Qed.
 
 (* grid origin three steps from zero, 1-D: after selecting point 0, `[:]`
-   silently ADDS point 3, which is not in the map being indexed *)
-Lemma wit_origin_silent :
+   still holds point 0 only *)
+Lemma wit_origin_keep :
   ids_res (run m10_off [KMask mask_only0]) = Ok [0] /\
-  ids_res (run m10_off [KMask mask_only0; KSel [kfull]]) = Ok [0; 3] /\
+  ids_res (run m10_off [KMask mask_only0; KSel [kfull]]) = Ok [0] /\
   ref_run (static m10_off) (acc_id m10_off) [KMask mask_only0; KSel [kfull]] = Ok [0].
 Proof. vm_compute. repeat split. Qed.
 
-(* same map: get_map_data of the full 10-point map returns 7 cells (ids 3..9) *)
+(* same map: get_map_data of the full 10-point map returns all 10 cells *)
 Lemma wit_origin_map_data :
   acc_shape m10_off = Ok [10] /\
   get_map_data m10_off false (map (fun p => (3 * Z.of_nat p)%Z) (seq 0 10))
-  = Ok ([7], map (fun p => Some (3 * Z.of_nat p)%Z) (seq 3 7)).
+  = Ok ([10], map (fun p => Some (3 * Z.of_nat p)%Z) (seq 0 10)).
 Proof. vm_compute. repeat split. Qed.
 
-(* origin exactly half a step: round-half-even makes the extent of the
-   one-point selection [1:2] empty (shape (0,)) *)
+(* origin exactly half a step: the one-point selection [1:2] has shape (1,),
+   and [1:3][:] holds two points *)
 Lemma wit_half_step :
   ids_res (getitem m10_half (KSel [sl 1 2])) = Ok [1] /\
-  (m <- getitem m10_half (KSel [sl 1 2]) ;; acc_shape m) = Ok [0] /\
-  ids_res (run m10_half [KSel [sl 1 3]; KSel [kfull]]) = Ok [1; 2; 3].
+  (m <- getitem m10_half (KSel [sl 1 2]) ;; acc_shape m) = Ok [1] /\
+  ids_res (run m10_half [KSel [sl 1 3]; KSel [kfull]]) = Ok [1; 2].
 Proof. vm_compute. repeat split. Qed.
 
-(* get_map_data(array) on a selection of exactly 3 points in a map of more
-   than 3 points treats the 3 values as one RGB triple *)
+(* get_map_data(1-D array) on a selection of exactly 3 points in a map of more
+   than 3 points places the 3 values at their (row, col) *)
 Definition mask_156 : list bool := map (fun p => (p =? 1) || (p =? 5) || (p =? 6)) (seq 0 12).
-Lemma wit_rgb_misread :
+Lemma wit_array3 :
   (m <- getitem m34 (KMask mask_156) ;; get_map_data m true [10; 20; 30]%Z)
-  = Ok ([2; 2; 3], [Some 10; Some 20; Some 30; None; None; None;
-                    Some 10; Some 20; Some 30; Some 10; Some 20; Some 30]%Z) /\
+  = Ok ([2; 2], [Some 10; None; Some 20; Some 30]%Z) /\
   (m <- getitem m34 (KMask mask_156) ;; get_map_data m false [10; 20; 30]%Z)
   = Ok ([2; 2], [Some 10; None; Some 20; Some 30]%Z).
 Proof. vm_compute. repeat split. Qed.
 
-(* a map with a single point has shape (): it cannot be sliced and
-   get_map_data raises *)
+(* a map with a single point is 0-dimensional (shape ()): row = col = [0],
+   get_map_data is the 0-d array of its value; like a 0-d NumPy array it takes
+   no int/slice index (the reference rejects such a key as well), masks and
+   phase names select as usual *)
 Lemma wit_single_point :
-  oshape m1 = [] /\ acc_id m1 = [0] /\
+  oshape m1 = [] /\ acc_id m1 = [0] /\ wfb m1 = true /\
+  acc_shape m1 = Ok [] /\
+  get_map_data m1 false [7%Z] = Ok ([], [Some 7%Z]) /\
+  acc_row m1 = Ok [0] /\ acc_col m1 = Ok [0] /\
   ids_res (getitem m1 (KSel [KInt 0])) = Err IndexError /\
-  get_map_data m1 false [0%Z] = Err TypeError /\
-  acc_row m1 = Err ValueError.
+  ref_getitem (static m1) (acc_id m1) (KSel [KInt 0]) = Err IndexError /\
+  ids_res (getitem m1 (KMask [true])) = Ok [0] /\
+  ids_res (getitem m1 (KPhase ["indexed"%string])) = Ok [] /\
+  ref_getitem (static m1) (acc_id m1) (KPhase ["indexed"%string]) = Ok [].
 Proof. vm_compute. repeat split. Qed.
